@@ -1,7 +1,7 @@
-import threading
 import warnings
 from collections import defaultdict
 from contextlib import contextmanager
+from itertools import count
 
 from .util import subvals, toposort
 from .wrap_util import wraps
@@ -92,16 +92,18 @@ def find_top_boxed_args(args):
     return top_boxes, top_trace, top_node_type
 
 
-class TraceStack(threading.local):
-    # one trace-depth counter per thread: differentiations running in different threads must not share levels
+class TraceStack:
+    # Every trace gets a level larger than that of every trace started before it, in whatever thread: a nested
+    # differentiation is always "above" the one it runs inside (also when it runs in a worker thread, or after an earlier
+    # differentiation failed), and concurrent differentiations never share a level. There is no depth to keep in step.
     def __init__(self):
-        self.top = -1
+        self._levels = count()
+        self.top = -1  # the level handed out last
 
     @contextmanager
     def new_trace(self):
-        self.top += 1
-        yield self.top
-        self.top -= 1
+        self.top = level = next(self._levels)
+        yield level
 
 
 trace_stack = TraceStack()
